@@ -171,6 +171,8 @@ type c07Cur struct {
 	fwdDiffers  bool // some forwarded query did not carry the client's question
 	fallbackUse int
 	// pair mode: two clients in flight at once; every forward waits until both have arrived (or 3 s)
+	prefMode bool
+	prefRecs func(qt uint16) []c07Rec
 	pair     bool
 	arrivals int
 	release  chan struct{}
@@ -189,6 +191,15 @@ func (f *c07Fwd) ForwardDNS(ctx context.Context, data []byte) (*dnsmessage.Msg, 
 	cur := c07Current
 	var q dnsmessage.Msg
 	uerr := q.Unpack(data)
+	if cur.prefMode {
+		if uerr != nil || len(q.Question) != 1 {
+			return nil, errC07Forward
+		}
+		m := new(dnsmessage.Msg)
+		m.SetReply(&q)
+		m.Answer = c07RRs(q.Question[0].Name, cur.prefRecs(q.Question[0].Qtype))
+		return m, nil
+	}
 	if cur.pair {
 		cur.mu.Lock()
 		cur.trace = append(cur.trace, f.up)
@@ -1069,6 +1080,74 @@ func TestVerifC07Controller(t *testing.T) {
 				fmt.Sprintf("asked=%s r1=%s r2=%s", strings.Join(cur.trace, ","), replies[0], replies[1]))
 			stats.Inc("op.pair")
 		}
+		_ = ctrl.Close()
+	}
+
+	// ---- ip_version_prefer: a non-preferred answer that is waiting when the preferred one arrives must still be
+	// relayed unchanged (the wait only delays it).  The non-preferred question is asked first in a goroutine;
+	// as soon as its wait is registered (white-box, bounded poll) the preferred question is asked.
+	nPref := 10
+	if VThorough() {
+		nPref = 40
+	}
+	for pi := 0; pi < nPref; pi++ {
+		text := c07ConfigText(0, nil, nil, "asis", nil, "accept")
+		dnsCfg, err := c07ParseConfig(text)
+		if err != nil {
+			t.Fatalf("pref config: %v", err)
+		}
+		routing, err := componentdns.New(dnsCfg, &componentdns.NewOption{Logger: c07Quiet(),
+			UpstreamReadyCallback: func(*componentdns.Upstream) error { return nil }})
+		if err != nil {
+			t.Fatalf("pref config: %v", err)
+		}
+		c07Ups = nil
+		st.Emit("cfg 0 asis - accept - urls: dead: opt:0", "ok")
+		prefer := []int{4, 6}[r.Intn(2)]
+		ctrl := c07NewController(t, routing, false, prefer)
+		name := strings.ToLower(c07Domain(r)) + "."
+		prefQt, otherQt := uint16(dnsmessage.TypeA), uint16(dnsmessage.TypeAAAA)
+		if prefer == 6 {
+			prefQt, otherQt = otherQt, prefQt
+		}
+		recsOf := func(qt uint16) []c07Rec {
+			if qt == dnsmessage.TypeA {
+				return []c07Rec{{"A", netip.MustParseAddr("10.1.2.3")}, {"A", netip.MustParseAddr("192.168.1.1")}}
+			}
+			return []c07Rec{{"AAAA", netip.MustParseAddr("2001:db8::1")}}
+		}
+		cur := &c07Cur{prefMode: true, prefRecs: recsOf}
+		c07Current = cur
+		ask := func(qt uint16, dst int) string {
+			msg := new(dnsmessage.Msg)
+			msg.Id = uint16(200 + qt)
+			msg.Question = []dnsmessage.Question{{Name: name, Qtype: qt, Qclass: dnsmessage.ClassINET}}
+			req := &udpRequest{realSrc: netip.MustParseAddrPort("192.0.2.10:41000"),
+				realDst: netip.MustParseAddrPort(fmt.Sprintf("9.9.9.%d:53", dst)), routingResult: &bpfRoutingResult{}}
+			w := &c07Writer{}
+			ctx, cancel := context.WithTimeout(context.Background(), 20*time.Second)
+			defer cancel()
+			if err := ctrl.HandleWithResponseWriter_(ctx, msg, req, w); err != nil || w.msg == nil {
+				return "err"
+			}
+			return "ans:ok:" + c07RecsOfRRs(w.msg.Answer)
+		}
+		done := make(chan string, 1)
+		go func() { done <- ask(otherQt, 1) }()
+		for i := 0; i < 25000; i++ { // until the non-preferred answer is waiting (or has already gone out)
+			ctrl.prefWaitRegistry.mu.RLock()
+			n := len(ctrl.prefWaitRegistry.waits)
+			ctrl.prefWaitRegistry.mu.RUnlock()
+			if n > 0 || len(done) > 0 {
+				break
+			}
+			time.Sleep(200 * time.Microsecond)
+		}
+		r2 := ask(prefQt, 1)
+		r1 := <-done
+		st.Emit(fmt.Sprintf("pref n:%s %d %d %s %s %s", name, otherQt, prefQt, c07Rx(name), c07RecsTok(recsOf(otherQt)), c07RecsTok(recsOf(prefQt))),
+			fmt.Sprintf("r1=%s r2=%s", r1, r2))
+		stats.Inc("op.pref")
 		_ = ctrl.Close()
 	}
 	stats.Write("c07c")
